@@ -32,6 +32,12 @@ def rname(rng):
     return list(b"My Switcher Boiler")
 
 
+def cut_name(rng):
+    """A 32-byte name field that ends inside a multi-byte character."""
+    tail = rng.choice([[0xD7], [0xE2, 0x82], [0xE2], [0xF0, 0x9F, 0x98], [0xF0, 0x9F], [0xF0], [0xC3]])
+    return [97 + rng.randrange(26) for _ in range(32 - len(tail))] + tail
+
+
 def rdev(rng, typ=None, **kw):
     typ = typ or rng.choice(TYPES)
     fam = FAM[typ]
@@ -129,6 +135,12 @@ class C05(BridgeProp):
                 dg.append({"do": "dgram", "p": PORTS[0], "d": rdev(rng, rng.choice(TYPES), mac=mac)})
         while len(dg) < n:
             dg.append({"do": "dgram", "p": rng.choice(PORTS), "d": rdev(rng)})
+        # the user's callback fails now and then, and now and then a device sends a name cut inside a multi-byte character:
+        # every OTHER broadcast must still be decoded exactly
+        for k in range(7, len(dg), 23):
+            dg[k]["cbraise"] = True
+        for k in range(11, len(dg), 41):
+            dg.insert(k, {"do": "dgram", "p": dg[k]["p"], "d": rdev(rng, name=cut_name(rng))})
         for k in range(0, len(dg), 100):
             out.append(wrap(PORTS, dg[k:k + 100]))
         return out
@@ -229,7 +241,7 @@ class C07(BridgeProp):
                     d = rdev(rng)
                     d["code"] = [rng.randrange(256), rng.randrange(256)]
                 else:
-                    d = rdev(rng, name=[0xFF, 0xFE, 0x41])     # undecodable name
+                    d = rdev(rng, name=rng.choice([[0xFF, 0xFE, 0x41], cut_name(rng)]))     # undecodable name
                 prev = d
                 dg.append({"do": "dgram", "p": p, "d": d, "cbraise": rng.random() < 0.2})
             out.append(wrap(ports, dg))
@@ -259,6 +271,20 @@ class C07(BridgeProp):
                 steps.append({"do": "dgram", "p": rng.choice(ports), "d": rdev(rng), "cbraise": False})
             steps += [{"do": "stop"}, {"do": "cycle"}]
             out.append({"ports": ports, "steps": steps})
+        # a start that failed (a later port was taken) and was retried, a bridge restarted, a second bridge object that failed to
+        # start on the same ports and was stopped, a late stop() of an old bridge object: deliveries must be unaffected
+        for _ in range(ctx.pick(60, 1500)):
+            nports = rng.randrange(2, 5)
+            ports = PORTS[:nports]
+            taken = rng.choice(ports[1:])
+            pre = rng.choice([
+                [{"do": "occupy", "p": taken}, {"do": "start"}, {"do": "free", "p": taken}, {"do": "cycle"}, {"do": "start"}],
+                [{"do": "start"}, {"do": "stop"}, {"do": "cycle"}, {"do": "start"}],
+                [{"do": "start"}, {"do": "start", "br": 2}, {"do": "stop", "br": 2}, {"do": "cycle"}],
+                [{"do": "start", "br": 2}, {"do": "stop", "br": 2}, {"do": "cycle"}, {"do": "start"}, {"do": "stop", "br": 2}, {"do": "cycle"}],
+            ])
+            dg = [{"do": "dgram", "p": rng.choice(ports), "d": rdev(rng), "cbraise": rng.random() < 0.15} for _ in range(rng.randrange(3, 12))]
+            out.append({"ports": ports, "ports2": ports[: rng.randrange(1, nports + 1)], "steps": pre + dg + [{"do": "stop"}, {"do": "cycle"}]})
         # valid broadcasts whose magic bytes are damaged must not reach the callback
         dg = []
         for typ in TYPES:
@@ -342,6 +368,28 @@ class C17(BridgeProp):
             if rng.random() < 0.5:
                 steps += [{"do": "start"}, {"do": "dgram", "p": rng.choice(ps), "d": rdev(rng), "cbraise": False}, {"do": "stop"}, {"do": "cycle"}]
             out.append({"ports": ps, "steps": steps})
+        # a port number that cannot be bound at all (the bind fails with an error that is not an OSError), listed after good ones
+        for badp in (70000, 65536, -1, 100000):
+            for ps in ([PORTS[0], badp], [PORTS[0], PORTS[1], badp], [badp, PORTS[0]], [PORTS[0], badp, PORTS[1]]):
+                out.append({"ports": ps, "steps": [{"do": "start"}, {"do": "dgram", "p": PORTS[0], "d": rdev(rng), "cbraise": False}, {"do": "cycle"},
+                                                   {"do": "start"}, {"do": "stop"}, {"do": "cycle"}]})
+        # two bridge objects on overlapping ports: what one of them does must not touch the other's sockets
+        two = ["start1", "start2", "stop1", "stop2", "cycle", "send1", "send2"]
+        for n in range(2, ctx.pick(4, 5) + 1):
+            for word in itertools.product(two, repeat=n):
+                if not any(w.startswith("start") for w in word):
+                    continue
+                steps = []
+                for a in word:
+                    if a.startswith("start"):
+                        steps.append({"do": "start", "br": int(a[5])})
+                    elif a.startswith("stop"):
+                        steps.append({"do": "stop", "br": int(a[4])})
+                    elif a == "cycle":
+                        steps.append({"do": "cycle"})
+                    else:
+                        steps.append({"do": "dgram", "p": PORTS[int(a[4]) - 1], "d": rdev(rng), "cbraise": False})
+                out.append({"ports": PORTS[:2], "ports2": rng.choice([PORTS[:2], PORTS[1:2], PORTS[:1], PORTS[1:3]]), "steps": steps})
         # a port listed twice, and an empty port list
         out.append({"ports": [PORTS[0], PORTS[0]], "steps": life_steps(rng, [PORTS[0]], ["start", "send1", "stop", "cycle", "send1"])})
         out.append({"ports": [], "steps": [{"do": "start"}, {"do": "stop"}]})
